@@ -24,6 +24,7 @@ func NewOnceConstructor[K comparable, V any](newFunc func(k K) (v V)) (c *OnceCo
 func (c *OnceConstructor[K, V]) Get(key K) (v V) {
 	// Step 1.  The fast track: check if there is already a value present.
 	loaderVal, inited := c.loaders.Load(key)
+	simPoint("once.Get.loaded")
 	if inited {
 		return loaderVal.(func() (v V))()
 	}
@@ -42,11 +43,14 @@ func (c *OnceConstructor[K, V]) Get(key K) (v V) {
 			// The only real receive.  Initialize the cached value and close the
 			// channel so that other goroutines receive the same value.
 			cached = c.new(key)
+			simPoint("once.loader.constructed")
 			close(done)
+			simPoint("once.loader.closed")
 		}
 
 		return cached
 	})
+	simPoint("once.Get.stored")
 
 	return loaderVal.(func() (v V))()
 }
